@@ -56,7 +56,8 @@ def gen_attr_case(rng):
     s.put(X + "/ld2.so", "loader2")
     s.put(X + "/elf2/ed", wc.elf_image(X + "/ld3.so"))
     s.put(X + "/ld3.so", "loader3")
-    files = [WATCH + "/a.txt", WATCH + "/inc/i.txt", WATCH + "/.h/c.txt", WATCH + "/.x", WATCH + "/inc/secret", WATCH + "/n"]
+    files = [WATCH + "/a.txt", WATCH + "/inc/i.txt", WATCH + "/.h/c.txt", WATCH + "/.x", WATCH + "/inc/secret", WATCH + "/n",
+             WATCH + "/proj/m.c", WATCH + "/pp/p1/x.c"]   # inside a project root / below a project parent: still the default policy
     for f in files:
         s.put(f, "x")
     s.start()
@@ -113,7 +114,7 @@ def mon_attribution(steps, meta):
             pid, path = int(st.tok[1]), vlib.unhexs(st.tok[2])
             rel = path[len(wc.WATCH) + 1:]
             queued = any(l.split(" ")[1] == "symlinkat" for l in st.log)
-            if rel in ("a.txt", "n") and queued != (pid in editors):
+            if rel in ("a.txt", "n", "proj/m.c", "pp/p1/x.c") and queued != (pid in editors):
                 return "write by process %d (%s) to %s was %squeued" % (pid, "an editor" if pid in editors else "not an editor", rel, "" if queued else "not ")
             if rel == "inc/i.txt" and not queued:
                 return "write to a force-included path was not queued"
